@@ -254,6 +254,11 @@ func (o *object) runOn(ctx *requestcontext.RequestContext, rc *recCache, in *inp
 	if sub != nil {
 		j, _ := json.Marshal(sub)
 		b.Subject = string(j)
+		// The subject belongs to this request. Later steps of its pipeline may write into it (sprig's set / merge / unset
+		// in a template do): nothing of that may ever show up in the subject created for another request.
+		if sub.Attributes != nil {
+			sub.Attributes["verif-scribbled-by-the-pipeline-of-request"] = in.Name
+		}
 	}
 	if h := ctx.UpstreamHeaders(); len(h) > 0 {
 		b.Headers = map[string][]string{}
